@@ -133,6 +133,7 @@ macro_rules! with_make {
             Ty::RS => { type $T = RS; $body }
             Ty::ArcLA => { type $T = Arc<LA>; $body }
             Ty::ArcRA => { type $T = Arc<RA>; $body }
+            Ty::ArcLS => { type $T = Arc<LS>; $body }
             _ => unreachable!("type is not insertable"),
         }
     };
@@ -149,8 +150,14 @@ macro_rules! direct {
 pub trait SVal: Storable {
     fn mk(n: u64) -> Self;
     fn n(&self) -> u64;
+    fn tid(&self) -> Option<u64> {
+        None
+    }
 }
 impl SVal for TV {
+    fn tid(&self) -> Option<u64> {
+        Some(self.t.id)
+    }
     fn mk(n: u64) -> Self {
         TV { n, t: Tracked::new(format!("TV {n}")) }
     }
@@ -159,6 +166,9 @@ impl SVal for TV {
     }
 }
 impl SVal for TV64 {
+    fn tid(&self) -> Option<u64> {
+        Some(self.t.id)
+    }
     fn mk(n: u64) -> Self {
         TV64 { n, t: Tracked::new(format!("TV64 {n}")), pad: [n; 5] }
     }
@@ -172,6 +182,9 @@ impl SVal for TV64 {
     }
 }
 impl SVal for TVHeap {
+    fn tid(&self) -> Option<u64> {
+        Some(self.t.id)
+    }
     fn mk(n: u64) -> Self {
         TVHeap { words: vec![n; 3 + (n % 5) as usize], t: Tracked::new(format!("TVHeap {n}")) }
     }
@@ -200,6 +213,9 @@ impl SVal for TVZst {
     }
 }
 impl SVal for TVBig {
+    fn tid(&self) -> Option<u64> {
+        Some(self.t.id)
+    }
     fn mk(n: u64) -> Self {
         TVBig { words: [n; 512], t: Tracked::new(format!("TVBig {n}")) }
     }
@@ -401,6 +417,42 @@ impl World {
         }
         m
     }
+    /// After a hot_reload the model follows the real cache for reloadable entries: values rewritten by the pass and
+    /// entries that nested loads of a reload cached (what they converge to is C05's subject, not the map model's).
+    pub fn follow_reloads(&mut self, ids: &[String]) {
+        let hot = self.model.hot;
+        for id in ids {
+            for ty in ALL_TYS {
+                if any_contains(self.front.any(), ty, id) {
+                    if let Some((s, rid, _)) = any_peek(self.front.any(), ty, id) {
+                        let e = self.model.cache.entry((ty, id.clone())).or_insert(crate::model::MEntry { show: s.clone(), reload: rid, dynamic: hot && ty.hot() });
+                        if e.dynamic {
+                            e.show = s;
+                            e.reload = rid;
+                        }
+                    }
+                }
+            }
+        }
+    }
+    /// ids of every tracked value reachable from the cache
+    pub fn reachable(&self, ids: &[String]) -> std::collections::BTreeSet<u64> {
+        let mut out = std::collections::BTreeSet::new();
+        for id in ids {
+            for ty in ALL_TYS {
+                if any_contains(self.front.any(), ty, id) {
+                    if let Some(v) = any_tids(self.front.any(), ty, id) {
+                        out.extend(v);
+                    }
+                }
+            }
+            for sk in SKS {
+                let t = with_sk!(sk, T, if self.front.any().contains::<T>(id) { self.front.any().get_cached::<T>(id).and_then(|h| h.read().tid()) } else { None });
+                out.extend(t);
+            }
+        }
+        out
+    }
     pub fn model_contents(&self) -> BTreeMap<String, String> {
         let mut m: BTreeMap<String, String> = self.model.cache.iter().map(|((ty, id), e)| (format!("{ty:?} {id}"), e.show.clone())).collect();
         for ((sk, id), n) in &self.smodel {
@@ -451,7 +503,7 @@ pub fn gen_ty(g: &mut SplitMix) -> Ty {
     match g.below(10) {
         0 | 1 | 2 => *g.pick(&[Ty::LA, Ty::LAB, Ty::LS]),
         3 | 4 => *g.pick(&LEAVES),
-        5 | 6 => *g.pick(&[Ty::RA, Ty::RB, Ty::RS, Ty::ArcRA, Ty::ArcLA]),
+        5 | 6 => *g.pick(&[Ty::RA, Ty::RB, Ty::RS, Ty::ArcRA, Ty::ArcLA, Ty::ArcLS]),
         _ => *g.pick(&ALL_TYS),
     }
 }
